@@ -25,7 +25,6 @@ import (
 	"encoding/json"
 	"fmt"
 	"net/url"
-	"os"
 	"path/filepath"
 	"sort"
 	"strings"
@@ -515,9 +514,4 @@ func TestC14(t *testing.T) {
 		Quick:    220,
 		Thorough: 2600,
 	})
-}
-
-func init() {
-	// keep go vet quiet about unused imports when files are edited
-	_ = os.Getenv
 }
